@@ -189,13 +189,18 @@ class API:
 
 
 def _site(exc):
+    """name of the innermost /repo function on the traceback; "?" when the exception was raised by
+    harness / engine code (innermost frame under /verif), which is never the code under proof's fault."""
     tb = exc.__traceback__
-    last = None
+    last, innermost = None, None
     while tb is not None:
         fn = tb.tb_frame.f_code.co_filename
+        innermost = fn
         if "/repo/" in fn or fn.startswith(REPO):
             last = tb.tb_frame.f_code.co_name
         tb = tb.tb_next
+    if innermost is not None and innermost.startswith("/verif/"):
+        return "?"
     return last or "?"
 
 
